@@ -1213,6 +1213,290 @@ func acceptanceCases(rng *hx.Rng, n int) {
 	}
 }
 
+// ---------------------------------------------------------------------------------------------------------------
+// ApplyTransaction acceptance across fork heights: SEQUENCES of calls on private chain configs whose HomesteadBlock is > 0.
+// Property clause: "malleable (high-S) signatures are rejected" by Homestead-and-later rules, observed at ApplyTransaction
+// acceptance, mechanism "MakeSigner selects by height".  Judgement per call (direct, replayable): the accept / reject verdict and
+// the debited account equal what types.Sender(types.MakeSigner(config, height), tx) says on a fresh object for THAT height,
+// whatever calls (other heights, other configs) came before; and — computed by the harness from the config alone — an unprotected
+// high-S transaction at a height >= HomesteadBlock is never applied.  Each call is also a model case (`apply`).
+
+type forkCfg struct {
+	cfg     *params.ChainConfig
+	key     []byte
+	addr    common.Address
+	statedb *state.StateDB
+	last    map[string]*types.Transaction // last REJECTED object per tx kind (re-offered as the same object: sender cache inside)
+}
+
+func optBig(b *big.Int) string {
+	if b == nil {
+		return "-"
+	}
+	return hn(b)
+}
+
+func sgnOf(sg types.Signer, chain *big.Int) sgn {
+	switch sg.(type) {
+	case types.FrontierSigner:
+		return sgn{"F", nil}
+	case types.HomesteadSigner:
+		return sgn{"H", nil}
+	}
+	return sgn{"E", chain}
+}
+
+type forkCall struct {
+	c    int    // config index
+	h    int64  // header.Number
+	kind string // lowU | highU | lowP | highP | foreignP
+}
+
+var forkKinds = []string{"lowU", "highU", "lowP", "highP", "foreignP"}
+
+func newForkCfg(rng *hx.Rng, hb, eb *big.Int, chain int64) *forkCfg {
+	key := genKey(rng)
+	priv := crypto.ToECDSAUnsafe(key)
+	statedb, _ := state.New(common.Hash{}, state.NewDatabase(aquadb.NewMemDatabase()))
+	addr := crypto.PubkeyToAddress(priv.PubKey())
+	statedb.AddBalance(addr, new(big.Int).Lsh(big1, 100))
+	// a PRIVATE config object (its own pointer): only the fields MakeSigner and the EVM rules read are set
+	cfg := &params.ChainConfig{ChainId: big.NewInt(chain), HomesteadBlock: hb, EIP155Block: eb}
+	return &forkCfg{cfg, key, addr, statedb, map[string]*types.Transaction{}}
+}
+
+// build the transaction of the given kind for the account's CURRENT nonce.
+func (f *forkCfg) build(rng *hx.Rng, kind string) (*types.Transaction, raw) {
+	priv := crypto.ToECDSAUnsafe(f.key)
+	nonce := f.statedb.GetNonce(f.addr)
+	to := common.BytesToAddress(rng.Bytes(20))
+	var s sgn
+	switch kind {
+	case "lowU", "highU":
+		s = sgn{"H", nil}
+	case "lowP", "highP":
+		s = sgn{"E", f.cfg.ChainId}
+	default:
+		s = sgn{"E", new(big.Int).Add(f.cfg.ChainId, big1)}
+	}
+	t, err := types.SignTx(types.NewTransaction(nonce, to, big.NewInt(int64(1+rng.Intn(1000))), 21000, big.NewInt(1), nil), s.signer(), priv)
+	if err != nil {
+		panic(err)
+	}
+	r := rawOf(t)
+	if kind == "highU" || kind == "highP" {
+		r.S.Sub(curveN, r.S)
+		if kind == "highU" {
+			r.V = big.NewInt(55 - r.V.Int64())
+		} else {
+			flipRid(r.V)
+		}
+		t2, err := r.tx()
+		if err != nil {
+			panic(err)
+		}
+		t = t2
+	}
+	return t, r
+}
+
+func forkSeqCases(rng *hx.Rng, n int) {
+	seenCase := map[string]bool{}
+	for sc := 0; sc < n; sc++ {
+		h := int64(2 + rng.Intn(40))
+		if rng.Intn(4) == 0 {
+			h = int64(1000 + rng.Intn(100000))
+		}
+		far := h + 100000 // "EIP-155 later than every height used"
+		// config A: HomesteadBlock = h > 0; EIP-155 status the same on both sides of h (never / from genesis / far later), or different
+		var ebA *big.Int
+		variant := sc % 7
+		vname := ""
+		switch variant {
+		case 0, 1:
+			ebA, vname = nil, "eip155:never"
+		case 2:
+			ebA, vname = big.NewInt(far), "eip155:later-than-all-heights"
+		case 3:
+			ebA, vname = big.NewInt(0), "eip155:from-genesis"
+		case 4:
+			ebA, vname = big.NewInt(h), "eip155:at-homestead"
+		case 5:
+			ebA, vname = big.NewInt(h+3), "eip155:shortly-after-homestead"
+		case 6:
+			ebA, vname = big.NewInt(h-1), "eip155:before-homestead"
+		}
+		run.Count("forkseq:cfg:" + vname)
+		cfgs := []*forkCfg{newForkCfg(rng, big.NewInt(h), ebA, 1337)}
+		// config B (interleaving): another chain with its own fork heights
+		h2 := int64(1 + rng.Intn(int(h)+5))
+		switch rng.Intn(4) {
+		case 0:
+			cfgs = append(cfgs, newForkCfg(rng, big.NewInt(0), nil, 1337))
+		case 1:
+			cfgs = append(cfgs, newForkCfg(rng, big.NewInt(h2), nil, 7))
+		case 2:
+			cfgs = append(cfgs, newForkCfg(rng, big.NewInt(h2), big.NewInt(h2+2), 1337))
+		case 3:
+			cfgs = append(cfgs, newForkCfg(rng, nil, nil, 1337))
+		}
+		// heights of interest for a config
+		heights := func(f *forkCfg) []int64 {
+			hs := []int64{0, 1}
+			for _, b := range []*big.Int{f.cfg.HomesteadBlock, f.cfg.EIP155Block} {
+				if b != nil && b.IsInt64() && b.Int64() < far {
+					hs = append(hs, b.Int64()-1, b.Int64(), b.Int64()+1, b.Int64()+1+int64(rng.Intn(5000)))
+				}
+			}
+			var out []int64
+			for _, x := range hs {
+				if x >= 0 {
+					out = append(out, x)
+				}
+			}
+			return out
+		}
+		below := func() int64 { return h - 1 - int64(rng.Intn(int(h))) } // 0 .. h-1
+		above := func() int64 {
+			switch rng.Intn(3) {
+			case 0:
+				return h
+			case 1:
+				return h + 1
+			}
+			return h + int64(rng.Intn(5000))
+		}
+		var calls []forkCall
+		shape := (sc / 7) % 4
+		switch shape {
+		case 0: // in-order import: Frontier era first, then across the fork
+			for i := 0; i <= rng.Intn(3); i++ {
+				calls = append(calls, forkCall{0, below(), "lowU"})
+			}
+			calls = append(calls, forkCall{0, h, "highU"}, forkCall{0, h, "lowU"}, forkCall{0, h, "highU"}, forkCall{0, above(), "highU"},
+				forkCall{0, above(), "lowU"}, forkCall{0, above(), "highP"}, forkCall{0, above(), "lowP"}, forkCall{0, above(), "highU"})
+		case 1: // reverse: Homestead era first, then a Frontier-era block (side chain / tracing an old block), and back
+			calls = append(calls, forkCall{0, above(), "lowU"}, forkCall{0, above(), "highU"}, forkCall{0, below(), "highU"}, forkCall{0, below(), "lowU"},
+				forkCall{0, below(), "highU"}, forkCall{0, h, "highU"}, forkCall{0, above(), "lowU"}, forkCall{0, h - 1, "highU"}, forkCall{0, h, "highU"})
+		case 2: // interleaved with the second config
+			calls = append(calls, forkCall{0, below(), "lowU"}, forkCall{1, h2, "lowU"}, forkCall{0, h, "highU"}, forkCall{0, below(), "highU"},
+				forkCall{1, h2 + 1, "highU"}, forkCall{0, above(), "highU"}, forkCall{1, 0, "highU"}, forkCall{0, below(), "lowU"}, forkCall{0, above(), "highU"},
+				forkCall{1, h2 + 3, "lowP"}, forkCall{0, above(), "highU"})
+		case 3: // random walk over both configs, all heights of interest, all tx kinds
+			for i := 0; i < 10+rng.Intn(10); i++ {
+				c := 0
+				if rng.Intn(3) == 0 {
+					c = 1
+				}
+				hs := heights(cfgs[c])
+				k := forkKinds[rng.Intn(len(forkKinds))]
+				if rng.Intn(2) == 0 {
+					k = forkKinds[rng.Intn(2)]
+				}
+				calls = append(calls, forkCall{c, hs[rng.Intn(len(hs))], k})
+			}
+		}
+		run.Count(fmt.Sprintf("forkseq:shape:%d", shape))
+
+		var history []map[string]interface{}
+		cfgIn := func() []map[string]interface{} {
+			var out []map[string]interface{}
+			for _, f := range cfgs {
+				out = append(out, map[string]interface{}{"homesteadBlock": optBig(f.cfg.HomesteadBlock), "eip155Block": optBig(f.cfg.EIP155Block),
+					"chainId": f.cfg.ChainId.String(), "key": hex.EncodeToString(f.key), "funded": hex.EncodeToString(f.addr[:])})
+			}
+			return out
+		}
+		for _, cl := range calls {
+			if cl.h < 0 {
+				cl.h = 0
+			}
+			f := cfgs[cl.c]
+			num := big.NewInt(cl.h)
+			// the object: newly built for the current nonce, or the very object a previous call rejected (its sender cache is warm)
+			var t *types.Transaction
+			var r raw
+			if old := f.last[cl.kind]; old != nil && old.Nonce() == f.statedb.GetNonce(f.addr) && rng.Intn(2) == 0 {
+				t, r = old, rawOf(old)
+				run.Count("forkseq:same-object-reoffered")
+			} else {
+				t, r = f.build(rng, cl.kind)
+			}
+			// expectation for THIS height, from the signer API on a fresh object
+			want := sgnOf(types.MakeSigner(f.cfg, num), f.cfg.ChainId)
+			fresh, err := r.tx()
+			if err != nil {
+				panic(err)
+			}
+			exp := sender(want, fresh)
+			// era by the harness' own reading of the config (independent of MakeSigner)
+			homestead := f.cfg.HomesteadBlock != nil && f.cfg.HomesteadBlock.Cmp(num) <= 0
+			eip155 := f.cfg.EIP155Block != nil && f.cfg.EIP155Block.Cmp(num) <= 0
+			era := "F"
+			if eip155 {
+				era = "E"
+			} else if homestead {
+				era = "H"
+			}
+			header := &types.Header{Number: num, GasLimit: 10000000, Time: big.NewInt(1000 + cl.h), Difficulty: big.NewInt(1), Coinbase: common.Address{7}}
+			nonce0 := f.statedb.GetNonce(f.addr)
+			bal0 := f.statedb.GetBalance(f.addr)
+			run.Current(fmt.Sprintf("forkseq apply cfg=%d h=%d %s", cl.c, cl.h, cl.kind))
+			got := hx.Safe(func() string {
+				gp := new(core.GasPool).AddGas(header.GasLimit)
+				var used uint64
+				author := common.Address{7}
+				snap := f.statedb.Snapshot()
+				_, _, err := core.ApplyTransaction(f.cfg, nil, &author, gp, f.statedb, header, t, &used, vm.Config{})
+				if err != nil {
+					f.statedb.RevertToSnapshot(snap)
+					return "err " + errClass(err)
+				}
+				if f.statedb.GetNonce(f.addr) == nonce0+1 && f.statedb.GetBalance(f.addr).Cmp(bal0) < 0 {
+					return "ok " + hex.EncodeToString(f.addr[:])
+				}
+				return "ok someone-else"
+			})
+			step := map[string]interface{}{"config": cl.c, "height": cl.h, "kind": cl.kind, "tx": r.String(), "rlp": hex.EncodeToString(r.encode()),
+				"ApplyTransaction": got, "types.Sender(MakeSigner(config,height),tx)": exp}
+			history = append(history, step)
+			in := func() map[string]interface{} {
+				return map[string]interface{}{"configs": cfgIn(), "calls": append([]map[string]interface{}{}, history...)}
+			}
+			first := len(history) == 1
+			pos := "after-other-calls"
+			if first {
+				pos = "first-call"
+			}
+			if got != exp && !(strings.HasPrefix(got, "err") && strings.HasPrefix(exp, "err")) {
+				g, e := strings.Fields(got)[0], strings.Fields(exp)[0]
+				violate("fork-height-acceptance", fmt.Sprintf("core.ApplyTransaction %s in a %s-era block: %s, types.Sender(MakeSigner(config, height)) says %s", cl.kind, era, g, e), in(),
+					fmt.Sprintf("call %d (%s) at height %d of config %d: ApplyTransaction -> %s, the signer for that height (%s) -> %s", len(history), pos, cl.h, cl.c, got, want.String(), exp))
+			}
+			if cl.kind == "highU" && (homestead || eip155) && strings.HasPrefix(got, "ok") {
+				violate("high-s-accepted", "core.ApplyTransaction unprotected tx: S > N/2 accepted in a Homestead-or-later block ("+pos+")", in(),
+					fmt.Sprintf("height %d >= HomesteadBlock %s: malleated unprotected transaction applied and debited (%s)", cl.h, optBig(f.cfg.HomesteadBlock), got))
+			}
+			if strings.HasPrefix(got, "ok") {
+				delete(f.last, cl.kind)
+			} else {
+				f.last[cl.kind] = t
+			}
+			run.Count("forkseq:" + era + ":" + cl.kind + ":" + strings.Fields(got)[0])
+			// model case: applySender at (config, height) — no history on the model side
+			line := "apply " + optBig(f.cfg.HomesteadBlock) + " " + optBig(f.cfg.EIP155Block) + " " + hn(f.cfg.ChainId) + " " + hn(num) + " " + r.String() + " " +
+				recoverOracle(fresh, r.R, r.S, sgn{"E", f.cfg.ChainId})
+			run.Case(line, got)
+			mk := "mk " + optBig(f.cfg.HomesteadBlock) + " " + optBig(f.cfg.EIP155Block) + " " + hn(f.cfg.ChainId) + " " + hn(num)
+			if !seenCase[mk] {
+				seenCase[mk] = true
+				run.Case(mk, want.String())
+			}
+		}
+		run.Count("forkseq:scenarios")
+	}
+}
+
 func main() {
 	run = hx.Start()
 	log.Root().SetHandler(log.DiscardHandler())
@@ -1277,5 +1561,10 @@ func main() {
 		na = 60
 	}
 	acceptanceCases(rng.Fork(4), na)
+	nf := 56
+	if thorough {
+		nf = 1400
+	}
+	forkSeqCases(rng.Fork(6), nf)
 	run.Finish()
 }
